@@ -83,6 +83,8 @@ func (a *hasm) seq(ops []Op) {
 		switch o.K {
 		case 'r':
 			a.call(callSnippet(w.hashes[o.To], "run", o.Flags, w.bind(w.toU(o.Body), o.To)))
+		case 'w':
+			a.call(callSnippet(w.wtok, wMethod(o.Src, o.To), 15, w.bind(w.toU(o.Body), o.To)))
 		case '$':
 			tok := nativehashes.GasToken
 			if o.Src == 'n' {
